@@ -3,6 +3,7 @@ package props
 import (
 	"encoding/json"
 	"fmt"
+	"math/rand/v2"
 
 	"github.com/google/jsonschema-go/jsonschema"
 
@@ -88,9 +89,15 @@ func (c02) local(c *fw.Case) {
 			m["not"] = map[string]any{}
 		}
 	}
+	var directed []any
+	if c.Idx%7 == 3 {
+		// nested dependencies: several dependencies of an object apply at once, one of them in schema form leads (through a
+		// property or in place) to another object schema whose own dependencies apply too, under other names
+		m, directed = nestedDependencies(r)
+	}
 	m["$schema"] = d7uri(c)
 	baseURI := ""
-	if r.IntN(4) == 0 {
+	if directed == nil && r.IntN(4) == 0 {
 		// a base-URI $id spelled with an empty fragment (recommended by draft-07 for root schemas), with references that depend on it
 		m["$id"] = "http://example.com/schemas/root.json#"
 		defsKW := "definitions"
@@ -121,7 +128,11 @@ func (c02) local(c *fw.Case) {
 	}
 	var ts traceStats
 	mod.Trace = ts.hook()
-	for _, im := range gen.Instances(r, m, 14, false, names...) {
+	insts := gen.Instances(r, m, 14, false, names...)
+	if directed != nil {
+		insts = directed
+	}
+	for _, im := range insts {
 		valid, decided := mc.compare(c, mod, rs, im, &ts, "draft-07")
 		if !decided {
 			continue
@@ -303,3 +314,66 @@ func (c02) unsupported(c *fw.Case) {
 }
 
 func (c02) Finalize(a *fw.Agg, t fw.Tier) { keywordCoverage(a, true) }
+
+// nestedDependencies builds a draft-07 schema with dependencies at two levels and a set of instances over the names used.
+func nestedDependencies(r *rand.Rand) (map[string]any, []any) {
+	outer := []string{"a", "b", "c", "d"}
+	inner := []string{"x", "y", "p", "q"}
+	if r.IntN(4) == 0 {
+		inner = outer // the same names at both levels
+	}
+	depsOver := func(names []string, sub any) map[string]any {
+		deps := map[string]any{}
+		schemaForm := r.IntN(len(names))
+		for i, n := range names {
+			if r.IntN(4) == 0 && i != schemaForm {
+				continue
+			}
+			if i == schemaForm && sub != nil {
+				deps[n] = sub
+				continue
+			}
+			switch r.IntN(3) {
+			case 0:
+				deps[n] = map[string]any{"required": []any{gen.Pick(r, names)}}
+			default:
+				deps[n] = []any{gen.Pick(r, names)}
+			}
+		}
+		return deps
+	}
+	innerSchema := map[string]any{"dependencies": depsOver(inner, nil)}
+	var sub any
+	hop := r.IntN(3)
+	switch hop {
+	case 0:
+		sub = map[string]any{"properties": map[string]any{"inner": innerSchema}}
+	case 1:
+		sub = innerSchema // in place: the inner dependencies judge the same object
+	default:
+		sub = map[string]any{"allOf": []any{map[string]any{"properties": map[string]any{"inner": innerSchema}}}}
+	}
+	m := map[string]any{"dependencies": depsOver(outer, sub)}
+	subset := func(names []string) map[string]any {
+		o := map[string]any{}
+		for _, n := range names {
+			if r.IntN(3) > 0 {
+				o[n] = json.Number("1")
+			}
+		}
+		return o
+	}
+	var insts []any
+	for k := 0; k < 24; k++ {
+		o := subset(outer)
+		if hop != 1 {
+			o["inner"] = subset(inner)
+		} else {
+			for n, v := range subset(inner) {
+				o[n] = v
+			}
+		}
+		insts = append(insts, o)
+	}
+	return m, insts
+}
